@@ -6,6 +6,7 @@
   nothing, in any slot).
 -/
 import Frost.Proofs.Dkg3
+import Frost.Model.Refresh
 import Frost.Proofs.Honest
 
 set_option linter.unusedSectionVars false
@@ -27,6 +28,32 @@ theorem round2_accept_iff (S : Suite F E) (me : F) (r1c : List (F × List E)) (c
       (sum = acc + (r2.map (·.2)).sum ∧
        ∀ lv ∈ r2, ∃ C, SMap.get? r1c lv.1 = some C ∧ C ≠ [] ∧ lv.2 • S.G = vssR C me) :=
   part3Loop_ok_iff S me r1c culprit r2 acc sum
+
+/-- **The distributed refresh applies the same rule**: `refresh_dkg_shares` runs the same loop
+    over the round-one commitments with the identity re-inserted as constant term, so whenever
+    it succeeds every value `v` in sender `ℓ`'s slot satisfies `v•G = Σ_k me^k • C_{ℓ,k}` for the
+    commitment filed for that very sender — each share on its own, not merely their sum. -/
+theorem refresh_round2_accept (S : Suite F E) (sp : Round2Secret F E)
+    (r1 : List (F × Round1Package F E)) (r2 : List (F × F)) (oldPkp : PublicKeyPackage F E)
+    (oldKp : KeyPackage F E) (out : KeyPackage F E × PublicKeyPackage F E)
+    (h : refreshDkgShares S sp r1 r2 oldPkp oldKp = .ok out) :
+    ∀ lv ∈ r2, ∃ C, SMap.get? (r1.map fun ip => (ip.1, (0 : E) :: ip.2.commitment)) lv.1 = some C ∧
+      lv.2 • S.G = vssR C sp.id := by
+  unfold refreshDkgShares at h
+  split at h; · cases h
+  simp only at h
+  split at h; · cases h
+  split at h; · cases h
+  split at h; · cases h
+  split at h; · cases h
+  split at h
+  · rename_i sum hsum
+    intro lv hlv
+    obtain ⟨_, hall⟩ := (part3Loop_ok_iff S sp.id _ false r2 0 sum).1 hsum
+    obtain ⟨C, hC, _, hv⟩ := hall lv hlv
+    exact ⟨C, hC, hv⟩
+  · cases h
+  · cases h
 
 /-- if `part2` succeeds, every filed round-one commitment has the recorded threshold as its
     length (this discharges the length hypothesis of `part3_ok_consistent` for the map that
